@@ -69,6 +69,19 @@ def run(eng, tier):
         okv = vv[0] == 'adt' and dict(vv[3]).get('version') == S(version) and dict(vv[3]).get('definition') == S(crate)
         eng.ob(okv, PROP, 'record', 'version', 'version record is %s, expected {definition: %s, version: %s}' % (K(vv)[:120], crate, version), where=vs[0]['site'])
     eng.ob(some_fee['ask'] > 0 and some_fee['bid'] > 0, PROP, 'floor-table-row', 'fee-pairs', 'no successful path stores a fee (fail closed)')
+    # premises of lemma L-K (any admissible price x any admissible size is an integer): (a) admitted prices have at most `price_precision`
+    # decimals, (b) admitted sizes are multiples of `size_increment`, both tested against the STORED parameters; (c) increment % 10^precision == 0
+    # (guard above); (d) the two parameters are never rewritten (C12 market-frozen). The arithmetic conclusion itself is the lemma.
+    from c07 import price_guards
+    nlk = 0
+    for v in ('CreateAsk', 'CreateBid'):
+        for p in eng.paths('execute', 'ok', v):
+            nlk += 1
+            ga = dict(price_guards('price', v))['price-within-precision']
+            gb = ('val', EQ(I(0), REM(M(v, 'size'), F(CFG, 'size_increment'))), True)
+            eng.ob(p.pos(ga) is not None and p.pos(gb) is not None, PROP, 'L-K-premises', v,
+                   '%s admits an order without testing price precision and lot multiple against the stored price_precision / size_increment (the integrality consequence of instantiation would not follow)' % v, detail=p.describe(12))
+    eng.ob(nlk > 0, PROP, 'floor-ok-path', 'L-K', 'no admission path found for the L-K premises')
     # converse
     refs = Refusals(eng, 'instantiate')
     def isf(e, f): return e['fact'] == f
@@ -99,7 +112,7 @@ def run(eng, tier):
                        'R-table: the stored configuration equals the message field by field (bind_name "", empty pair -> no fee) and the version record equals {crate name, package version} of Cargo.toml; R-refusal: no refusal beyond the negated conditions and storage failure.',
         'inventory': {'ok_paths': len(oks), 'matched_refusals': dict(mt)},
         'trusted_base': ['interpreter models (loops unrolled to 3 iterations)', 'addr_validate as oracle'],
-        'not_decided': ['the integrality consequence (any admissible price x any admissible size is an integer) is lemma L-K over the guards checked here and in C07; not recomputed'], 'assumptions': [],
+        'not_decided': ['the arithmetic step of the integrality consequence is lemma L-K (price*10^p integral, size = k*increment, increment = m*10^p  =>  price*size integral); its code-level premises are checked (rule L-K-premises + the increment guard + C12 market-frozen)'], 'assumptions': [],
     }
 
 import probes as _pb
